@@ -26,10 +26,23 @@ class Scenario(apiworld.ApiWorld):
         self.pending_version = []       # version requests not answered yet: (time, pid)
         self.nreq = 0
         self.auto_versions = 1 if params.get("mode", "api") == "api" else 0   # the handshake's own request
+        self.auto_versions = 0 if params.get("mode", "api") == "bare" else 1
         if params.get("mode", "api") == "api":
             r = self.init_now(horizon=0.0)
             assert r and r[1] is True, f"init failed: {r}"
             self.loop.settle()
+            self.mon_start = self.loop.time()
+        elif params.get("mode") == "api-late":
+            # the console is unreachable when init() is called: init() gives up after 5 s and returns False,
+            # the socket keeps trying, the console comes up at 6.5 s and the handshake completes on its own -
+            # "once initialised" starts there
+            self.net.auto = "refuse"
+            r = self.init_now(horizon=6.5)
+            assert r and r[1] is False, f"init against an unreachable console: {r}"
+            self.net.auto = "accept"
+            self.loop.run_until(8.0)
+            self.loop.settle()
+            assert self.at.initialised, "handshake did not complete after the console came up"
             self.mon_start = self.loop.time()
         else:
             import pyairtouch.comms.heartbeat as hb
@@ -105,8 +118,9 @@ class Scenario(apiworld.ApiWorld):
             return [("run",)] if ready else []
         if ready:
             return [("run",)]
-        if self.loop.next_deadline() is not None:
-            acts.append(("tick",))
+        # with no timer armed at all the clock still runs: idle to the horizon (a client that armed nothing
+        # is judged there like any other)
+        acts.append(("tick",))
         if self.net.live():
             if self.pending_version:
                 acts.append(("answer",))
@@ -131,7 +145,8 @@ class Scenario(apiworld.ApiWorld):
         if op == "run":
             L.turn()
         elif op == "tick":
-            L.advance_to(min(L.next_deadline(), self.t_end))
+            nd = L.next_deadline()
+            L.advance_to(self.t_end if nd is None else min(nd, self.t_end))
             if self.outage_until is not None and L.time() >= self.outage_until:
                 self.outage_until = None
                 self.net.auto = "accept"
@@ -286,12 +301,12 @@ def run(tier, seed, part=None):
     # (mode, (interval, timeout), heartbeats, side events allowed, max deviations)
     if tier == "quick":
         plans = [("api", (300.0, 330.0), 2, 0, 0), ("api", (300.0, 330.0), 1, {"noise": 1}, 0), ("bare", (10.0, 15.0), 2, 0, 0), ("bare", (10.0, 10.5), 1, {"eof": 1, "unsolicited": 1}, 0), ("bare", (10.0, 15.0), 1, {"outage": 1}, 0),
-                 ("bare", (10.0, 10.5), 2, 0, 0)]
+                 ("bare", (10.0, 10.5), 2, 0, 0), ("api-late", (300.0, 330.0), 1, 0, 0)]
         cap = 40
     else:
         plans = [("api", (300.0, 330.0), 3, 1, 0), ("api", (300.0, 330.0), 2, 1, 1), ("bare", (10.0, 15.0), 4, 0, 0),
                  ("bare", (10.0, 15.0), 3, 1, 0), ("bare", (10.0, 10.5), 3, 1, 0), ("bare", (300.0, 330.0), 3, 0, 0),
-                 ("bare", (10.0, 15.0), 2, {"outage": 1, "eof": 1}, 0), ("api", (300.0, 330.0), 1, {"outage": 1}, 0)]
+                 ("bare", (10.0, 15.0), 2, {"outage": 1, "eof": 1}, 0), ("api", (300.0, 330.0), 1, {"outage": 1}, 0), ("api-late", (300.0, 330.0), 2, 1, 0)]
         cap = 600
     for gen in (4, 5):
         for mode, cfg, beats, side, dev in plans:
